@@ -50,7 +50,7 @@ PROPS = {
             "relevant": {"fit": [1, 2, 3, 5, 6], "lawfit": None}},
     "C02": {"modules": [P + "C02", P + "C02Exec", P + "C02Weight", P + "C02WeightGraph"], "streams": ["prim", "fit", "semi"],
             "relevant": {"prim": None, "fit": [0]}},
-    "C03": {"modules": [P + "C03"], "streams": ["fit", "semi"], "relevant": {"predict": [0]}},
+    "C03": {"modules": [P + "C03", P + "C03Fit"], "streams": ["fit", "semi"], "relevant": {"predict": [0]}},
     "C04": {"modules": [P + "C04", P + "C13"], "streams": ["fit", "cluster", "select"],
             "relevant": {"fit": [3], "cluster": [4]}},
     "C05": {"modules": [P + "C05"], "streams": ["heap"]},
@@ -61,7 +61,7 @@ PROPS = {
     "C16": {"modules": [P + "C16", P + "C16Cut", P + "C16Pipeline"], "streams": ["select"], "relevant": {"selmax": None, "selcut": None, "ncut": None, "unsfit": None, "knnfit": None}},
     "C10": {"modules": [P + "C10"], "streams": ["precomp", "fit"], "relevant": {"fit": [0, 1, 2, 3, 5], "predict": [0]}},
     "C11": {"modules": [P + "C11Map", P + "C11Family", P + "C11Perm", P + "C11Registry"], "streams": ["c11", "fit"], "relevant": {"fit": [0, 1, 2, 3, 5], "predict": [0]}},
-    "C17": {"modules": [P + "C17"], "streams": ["learn", "fit"], "relevant": {"swap": None, "best": None, "prune": None, "predict": [1]}},
+    "C17": {"modules": [P + "C17", P + "C17Iter"], "streams": ["learn", "fit"], "relevant": {"swap": None, "best": None, "prune": None, "iters": None, "predict": [1]}},
     "C18": {"modules": [P + "C18"], "streams": ["stream"]},
     "C19": {"modules": [P + "C19"], "streams": ["persist"]},
     "C20": {"modules": [P + "C20"], "streams": ["measures"]},
